@@ -160,11 +160,15 @@ PREFIXES = [
     ("script", "script", "<!--<script "), ("script", "script", "<!--<script -"), ("script", "script", "<!--<script --"), ("script", "script", "<!--<script <"), ("script", "script", "<!--<script </"),
     ("script", "script", "<!--<script </scrip"), ("script", "script", "<!--<script </script"), ("script", "script", "<!--<scripx"), ("script", "ſcript", "</script"), ("script", "script", "</ſcript"), ("rcdata", "a\u212a", "</ak"), ("rawtext", "t\u0130tle", "</title"),
     ("rawtext", "t\u0130tle", "</ti\u0307tle"), ("script", "a\u212a", "</ak"), ("script", "a\u212a", "<!--</ak"),
+    # ASCII case-insensitivity of the names the tokenizer compares itself (temporary buffer, appropriate end tag)
+    ("script", "script", "<!--<SCRIPT"), ("script", "script", "<!--<ScRiP"), ("script", "script", "<!--<script </SCRIPT"), ("script", "script", "<!--<SCRIPT </ScRiPt"),
+    ("script", "script", "<!--<sCRIPT>x</SCRIP"), ("script", "script", "</SCRIPT"), ("script", "script", "<!--</SCRIPT"), ("rcdata", "title", "</TITLE"), ("rcdata", "title", "</TiTl"),
+    ("rawtext", "style", "</STYLE"), ("rcdata", "textarea", "</TextAre"),
 ]
 
 ALPHABET = [chr(c) for c in range(128)] + ["", "\x80", "Å", "İ", "K", "�", "﷐", "￾", "\U0001F600", "\U0010FFFF", "\ud800", "\udfff",
                                            "\r", "\r\n", "ſ", "é", "　", "\x85", "\xa0", "－", "＞", "＜"]
-SUFFIXES = ["", ">", " x>", "\"'>", "-->", "a=b>c</title></script>"]
+SUFFIXES = ["", ">", " x>", "\"'>", "-->", "a=b>c</title></script>", "></script>x--></script>y"]
 
 
 def shard(ctx):
